@@ -803,6 +803,74 @@ fn measure_all(fam: &KeyFamily, k: u32, fsts_bytes: &[Vec<u8>]) -> Vec<OpMeasure
         out.push(measure("is_subset.tiny_in_main.k2", || tiny_s.is_subset(&sets[0]) as u64));
         out.push(measure("is_superset.main_of_tiny.k2", || sets[0].is_superset(&tiny_s) as u64));
     }
+    // operands whose key ranges do NOT interleave (segment j holds the j-th
+    // quarter of the keys): one stream wins the merge for a very long
+    // uninterrupted run, then the next one
+    {
+        let kk = 4usize;
+        let mut segs: Vec<Vec<u8>> = Vec::new();
+        for j in 0..kk as u64 {
+            let mut b = fst::MapBuilder::memory();
+            let lo_i = j * fam.n / kk as u64;
+            let hi_i = (j + 1) * fam.n / kk as u64;
+            for i in lo_i..hi_i {
+                fam.key_into(i, &mut key);
+                b.insert(&key, fam.value(i)).expect("harness: segment");
+            }
+            segs.push(b.into_inner().expect("harness: segment"));
+        }
+        let smaps: Vec<fst::Map<&[u8]>> = segs.iter().map(|b| fst::Map::new(&b[..]).expect("harness: open")).collect();
+        let ssets: Vec<fst::Set<&[u8]>> = segs.iter().map(|b| fst::Set::new(&b[..]).expect("harness: open")).collect();
+        out.push(measure("union.segments.k4", || {
+            let mut ob = fst::map::OpBuilder::new();
+            for m in &smaps {
+                ob.push(m);
+            }
+            drain(ob.union())
+        }));
+        out.push(measure("intersection.segments.k4", || {
+            let mut ob = fst::map::OpBuilder::new();
+            for m in &smaps {
+                ob.push(m);
+            }
+            drain(ob.intersection())
+        }));
+        out.push(measure("difference.segments.k4", || {
+            let mut ob = fst::set::OpBuilder::new();
+            for s in &ssets {
+                ob.push(s);
+            }
+            drain(ob.difference())
+        }));
+        out.push(measure("symmetric_difference.segments.k4", || {
+            let mut ob = fst::set::OpBuilder::new();
+            for s in &ssets {
+                ob.push(s);
+            }
+            drain(ob.symmetric_difference())
+        }));
+        // the whole FST against one of its quarters
+        out.push(measure("union.main_x_segment.k2", || drain(m0.op().add(&smaps[1]).union())));
+        out.push(measure("symmetric_difference.main_x_segment.k2", || {
+            drain(sets[0].op().add(&ssets[2]).symmetric_difference())
+        }));
+    }
+    // more than 2^20 point look-ups on ONE opened object of each kind
+    out.push(measure("open+get.over_2pow20_lookups_per_object", || {
+        let f = fst::raw::Fst::new(&main[..]).expect("harness: open");
+        let m = fst::Map::new(&main[..]).expect("harness: open");
+        let s = fst::Set::new(&main[..]).expect("harness: open");
+        let mut hits = 0u64;
+        let rounds = (1u64 << 20) / probes.len() as u64 + 60;
+        for _ in 0..rounds {
+            for p in &probes {
+                hits += f.contains_key(p) as u64;
+                hits += m.get(p).is_some() as u64;
+                hits += s.contains(p) as u64;
+            }
+        }
+        hits
+    }));
     out.push(measure("is_subset/superset/disjoint", || {
         let a = &sets[0];
         let b = &sets[std::cmp::min(1, sets.len() - 1)];
